@@ -135,11 +135,11 @@ func (e *Exec) instrWrites(fn *ssa.Function, in ssa.Instruction, ws map[string]b
 	case *ssa.Store:
 		e.addrWrites(x.Addr, ws)
 	case *ssa.MapUpdate:
-		md, mv, mc := e.mapHeaps(x.Map.Type().Underlying().(*types.Map))
-		ws[md], ws[mv], ws[mc] = true, true, true
+		md, mv := e.mapHeaps(x.Map.Type().Underlying().(*types.Map))
+		ws[md], ws[mv] = true, true
 	case *ssa.MakeMap:
-		md, mv, mc := e.mapHeaps(x.Type().Underlying().(*types.Map))
-		ws[md], ws[mv], ws[mc] = true, true, true
+		md, mv := e.mapHeaps(x.Type().Underlying().(*types.Map))
+		ws[md], ws[mv] = true, true
 		ws[wsAlloc] = true
 	case *ssa.MakeSlice:
 		ws[wsAlloc] = true
@@ -233,8 +233,8 @@ func (e *Exec) callWrites(c *ssa.CallCommon, ws map[string]bool) {
 		case "copy":
 			ws[e.elemHeap(c.Args[0].Type().Underlying().(*types.Slice).Elem())] = true
 		case "delete":
-			md, mv, mc := e.mapHeaps(c.Args[0].Type().Underlying().(*types.Map))
-			ws[md], ws[mv], ws[mc] = true, true, true
+			md, mv := e.mapHeaps(c.Args[0].Type().Underlying().(*types.Map))
+			ws[md], ws[mv] = true, true
 		}
 		return
 	}
@@ -378,7 +378,7 @@ func rootAlloc(v ssa.Value) *ssa.Alloc {
 
 func (e *Exec) loopWritesMap(fr *frame, b *ssa.BasicBlock, mt *types.Map) bool {
 	// find innermost loop header whose body contains b
-	_, mv, _ := e.mapHeaps(mt)
+	_, mv := e.mapHeaps(mt)
 	for _, h := range fr.loops.headers {
 		if fr.loops.body[h][b] {
 			ws, _ := e.loopWriteSet(fr, h)
@@ -409,13 +409,15 @@ func (e *Exec) havocLoop(fr *frame, pre *State, h *ssa.BasicBlock, ord int) *Sta
 			names = append(names, k)
 		}
 		sort.Strings(names)
+		if ws[wsAlloc] {
+			st.nextRef = e.ctx.fresh("nextRef", sInt)
+			e.ctx.assume(imp(st.pc, le(pre.nextRef, st.nextRef)))
+		}
 		for _, name := range names {
 			if name == wsAlloc {
-				st.nextRef = e.ctx.fresh("nextRef", sInt)
-				e.ctx.assume(imp(st.pc, le(pre.nextRef, st.nextRef)))
 				continue
 			}
-			old, nw := e.havocHeap(st, name)
+			old, nw := e.havocHeapTyped(st, name, st.nextRef)
 			e.loopFrameAssume(fr, st, pre, name, old, nw, ord)
 		}
 	}
@@ -469,7 +471,9 @@ func (e *Exec) ghostWrittenInLoop(fr *frame, h *ssa.BasicBlock, key string) bool
 // what the loop may change relative to its entry.
 func (e *Exec) loopFrameAssume(fr *frame, st, pre *State, heap, old, nw string, ord int) {
 	hi := e.heapInfos[heap]
-	_ = hi
+	if hi.kind == 'g' {
+		return
+	}
 	if e.spec != nil && e.spec.HasMod && !e.modAll && fr.fn == e.fn {
 		entryT := e.heapTerm(e.entry, heap)
 		cond := lt(app("root", "r"), e.nextRef0)
@@ -565,6 +569,9 @@ func (e *Exec) callWith(fr *frame, st *State, c *ssa.CallCommon, fv Val, args []
 		}
 	}
 	if callee == nil {
+		if fv.T != "" && fv.Bad == "" {
+			e.oblige(fr, st, "nilfunc", "call of a nil function value", pos, not(eq(fv.T, "0")))
+		}
 		if fs := e.funcValueSpec(c); fs != nil {
 			names := []string{}
 			for i := 0; i < sig.Params().Len(); i++ {
@@ -734,10 +741,12 @@ func (e *Exec) havocWrites(fr *frame, st *State, ws map[string]bool, mods []heap
 	sort.Strings(names)
 	preRef := st.nextRef
 	hasMod := spec != nil && (spec.HasMod || spec.Pure || len(spec.Writes) > 0)
+	if ws[wsAlloc] {
+		st.nextRef = e.ctx.fresh("nextRef", sInt)
+		e.ctx.assume(imp(st.pc, le(preRef, st.nextRef)))
+	}
 	for _, name := range names {
 		if name == wsAlloc {
-			st.nextRef = e.ctx.fresh("nextRef", sInt)
-			e.ctx.assume(imp(st.pc, le(preRef, st.nextRef)))
 			continue
 		}
 		if _, known := e.heapInfos[name]; !known {
@@ -755,7 +764,10 @@ func (e *Exec) havocWrites(fr *frame, st *State, ws map[string]bool, mods []heap
 				e.rangeStable(fr, st, name, "", pos)
 			}
 		}
-		old, nw := e.havocHeap(st, name)
+		old, nw := e.havocHeapTyped(st, name, st.nextRef)
+		if e.heapInfos[name].kind == 'g' {
+			continue
+		}
 		if hasMod && spec.HasMod {
 			cond := lt(app("root", "r"), preRef)
 			for _, m := range mods {
@@ -764,7 +776,7 @@ func (e *Exec) havocWrites(fr *frame, st *State, ws map[string]bool, mods []heap
 				}
 			}
 			e.ctx.assume(imp(st.pc, fmt.Sprintf("(forall ((r Int)) (! (=> %s (= (select %s r) (select %s r))) :pattern ((select %s r))))", cond, nw, old, nw)))
-		} else if e.spec != nil && e.spec.HasMod && !e.modAll {
+		} else if e.spec != nil && e.spec.HasMod && !e.modAll && e.heapInfos[name].kind != 'g' {
 			// callee without modifies clause writes this heap: cannot be framed
 			e.oblige(fr, st, "frame-call:"+shortName(callee), "callee "+callee+" may write "+name+" and declares no `modifies`", pos, "false")
 		}
